@@ -162,7 +162,7 @@ def context(ctx) -> None:
         selfn = f.params[0]
         clears = [cs for cs in fv.calls() if isinstance(cs.call.func, ast.Attribute) and cs.call.func.attr == "clear" and is_name(cs.call.func.value, selfn)]
         ok_clear = len(clears) == 1 and fv.cfg.postdominates(clears[0].node, fv.cfg.entry)
-        rets = return_exprs(f)
+        rets = [t for n, t in fv.returns()]
         ok_ret = bool(rets) and all(is_name(r, selfn) for r in rets)
         ctx.rep.check(ok_clear, rule, f"{dev.name}.__enter__/clear", "entering the with-block starts from an empty worklist", "__enter__ does not unconditionally clear the worklist", where=f.where())
         ctx.rep.check(ok_ret, rule, f"{dev.name}.__enter__/return", "__enter__ returns the worklist itself", "__enter__ does not return self", where=f.where())
@@ -193,10 +193,10 @@ def strings(ctx) -> None:
     def is_join(e, selfn):
         return isinstance(e, ast.Call) and isinstance(e.func, ast.Attribute) and e.func.attr == "join" and isinstance(e.func.value, ast.Constant) and e.func.value.value == "\n" and len(e.args) == 1 and is_name(e.args[0], selfn)
 
-    r1 = return_exprs(rp)
+    r1 = [t for n, t in ctx.fv(rp, base).returns()]
     ok1 = len(r1) == 1 and is_join(r1[0], rp.params[0])
     ctx.rep.check(ok1, rule, f"{rp.qualname}", "repr = records joined by a line break", f"__repr__ returns `{show(r1[0])[:60] if r1 else None}`: not the records joined by one line break each", where=rp.where())
-    r2 = return_exprs(st)
+    r2 = [t for n, t in ctx.fv(st, base).returns()]
     ok2 = len(r2) == 1 and (is_join(r2[0], st.params[0]) or (isinstance(r2[0], ast.Call) and isinstance(r2[0].func, ast.Attribute) and r2[0].func.attr == "__repr__" and is_name(r2[0].func.value, st.params[0]))
                             or (isinstance(r2[0], ast.Call) and is_name(r2[0].func, "repr") and r2[0].args and is_name(r2[0].args[0], st.params[0])))
     ctx.rep.check(ok2, rule, f"{st.qualname}", "str shows the same records", f"__str__ returns `{show(r2[0])[:60] if r2 else None}`", where=st.where())
